@@ -70,3 +70,26 @@ Example roundtrip_instance :
   from_json (SAnonMap (SBool true) 2 None None) (JObj [("0", JBool true); ("10", JBool false)])
   = JOk (VAnonMap [(0%N, VBool true); (10%N, VBool false)]).
 Proof. split; vm_compute; reflexivity. Qed.
+
+(** ** known finding (not repaired): headroom of map keys.  [path::KeyManager] keeps, per map, a
+    counter one above the largest key seen ([key + 1] in usize).  Reading a guess accepts every
+    key up to usize::MAX, so an accepted, conforming guess can hold a key for which that counter
+    does not exist: installing it overflows (a panic where overflow is checked).  All accepted
+    guesses without such a key have the headroom. *)
+Fixpoint keys_have_headroom (v : value) : bool :=
+  match v with
+  | VSub m => forallb (fun kv => keys_have_headroom (snd kv)) m
+  | VArray l => forallb keys_have_headroom l
+  | VAnonMap m => forallb (fun kv => N.ltb (fst kv) usize_max && keys_have_headroom (snd kv)) m
+  | VVariant _ x => keys_have_headroom x
+  | VOptional (Some x) => keys_have_headroom x
+  | _ => true
+  end.
+Theorem accepted_guess_keys_have_headroom_refuted :
+  exists s j v, wf s = true /\ from_json s j = JOk v /\ conforms s v = true /\ keys_have_headroom v = false.
+Proof.
+  exists (SAnonMap (SBool false) 1 None None), (JObj [("18446744073709551615", JBool true)]),
+         (VAnonMap [(18446744073709551615%N, VBool true)]).
+  vm_compute. repeat split.
+Qed.
+Print Assumptions accepted_guess_keys_have_headroom_refuted.
